@@ -543,3 +543,36 @@ def float_order(ctx, r):
             pos = [a[1] for a in args]
             r.ob(pos == sorted(pos), f"vm.rs:step:{v}:operand-order", VM, arm["l"], f"arm {v}: total_cmp applied to operands in order {pos}", sample=f"{v}: {op}{pos}")
     r.count("float comparison arms", n, 10, VM)
+
+
+@rule("ERR-STOPS", ["C11", "C10", "C15"], "an instruction that records a runtime error ends the step at once with `false`: nothing is pushed or stored on that path and the thread does not run on")
+def err_stops(ctx, r):
+    arms = _arms(ctx, r)
+    if arms is None:
+        return
+    n = 0
+    for v, arm, an in arms:
+        evs = an.events
+        for i, ev in enumerate(evs):
+            if not (ev.kind == "assign" and ev.data[0] == ("self", "error") and "error" in str(ev.data[1])):
+                continue
+            n += 1
+            C = tuple(ev.conds)
+            verdict = None
+            for later in evs[i + 1:]:
+                lc = tuple(later.conds)
+                if lc != C[: len(lc)]:
+                    continue  # not on every error path (another branch)
+                if later.kind == "ret":
+                    verdict = "stops" if later.data == ("lit", "false") else f"returns {later.data}"
+                    break
+                if later.kind in ("push", "store", "settop", "localstore", "popn", "pop") or (later.kind == "assign" and later.data[0] == ("self", "pc")):
+                    verdict = f"goes on to `{later.kind}`"
+                    break
+            if verdict is None:
+                verdict = "reaches the end of the arm (the step reports success)"
+            kind = str(ev.data[1])
+            r.ob(verdict == "stops", f"vm.rs:step:{v}:error-path-continues", VM, ev.line if hasattr(ev, "line") else arm["l"],
+                 f"arm {v}: after recording {kind} the arm {verdict}. The thread is stopped only by the caller looking at the error before the next instruction; a run loop that executes several instructions per turn keeps executing the failed program (its later output appears, or it finishes 'successfully'), so what the user sees depends on the step budget",
+                 sample=f"{v}: error recorded, `return false` next")
+    r.count("error-recording paths in step arms", n, 15, VM)
